@@ -182,6 +182,14 @@ def show_pool(pool) -> str:
     return " & ".join(show_series(x) for x in pool)
 
 
+def show_classes(pool) -> str:
+    """for every slot the first slot whose object is the same or whose data shares memory with it (the model's buffer classes)"""
+    cls = []
+    for i, x in enumerate(pool):
+        cls.append(next(j for j in range(i + 1) if j == i or pool[j] is x or np.shares_memory(pool[j].data, x.data)))
+    return " ~ " + ",".join(str(c) for c in cls)
+
+
 def impl_dates(d):
     if d[0] == "all":
         return ...
@@ -964,7 +972,7 @@ def run_line(line: str, ctx: Ctx | None = None, check: bool = True):
                 fail(f"raises-{base_name}", f"op `{o}` is defined by the map semantics but raises {type(err).__name__}: {err}", k)
             replies.append(err_kind(err))
             break
-        replies.append(text + show_pool(pool))
+        replies.append(text + show_pool(pool) + show_classes(pool))
         if not check:
             continue
         # isolation, half 2: a functional result is a new object sharing no memory with anything that existed before
@@ -1441,7 +1449,7 @@ def shrink(line, site):
 
 def classify(ctx: Ctx, line, reply):
     n, ops = split_line(line)
-    states = reply.split(" # ")
+    states = [st_.split(" ~ ")[0] for st_ in reply.split(" # ")]
     for o in ops[: len(states)]:
         ctx.count("op:" + o.split()[0])
     last = states[-1]
